@@ -63,7 +63,7 @@ func init() {
 		ID:    "C12",
 		Title: "Results are plain self-contained data and evaluation is deterministic",
 		Level: "exploration",
-		Rule: fmt.Sprintf("a later query showing whole rows of the same document object; stars over a scope with read and unread CTEs. special items also: async columns of derived tables / CTEs used by value, aggregates over all-NULL columns, the same text under another option set in between (with enough filler statements to turn over a bounded cache). phase 'joinlimit': a LIMIT [OFFSET] window over every join flavour repeated 8..20 times (equal multisets); marker forms (FUSE, SETVAR, SPIN, SPINASYNC) in every matrix position. phase 'groups': grouping / DISTINCT / UNION over look-alike keys (\"0\", -0.0, 0, ...) repeated 12..30 times; every query with a synchronous fault position is also made to fail and executed again on the same Query object; special items: derived rows with async items read as objects, async items in join operands, CTE read by name, fused async slots, the bare marker. phase 'matrix' enumerates the full (expression form x clause position) matrix - %d forms (column, nested path, literals, arithmetic, unary, comparison-as-value, IN/BETWEEN/LIKE/IS-as-value, CASE returning column / literal / arithmetic / nested CASE, IF, ARRAY, CONCAT, FIRST/LAST/ELEMENTAT, UNWIND, CHANGETYPE, HASH, ENCODE/DECODE, DATERANGE, CONSTANT, GETVAR, row- and root-scoped subqueries, EXISTS, sync / ONCE / SCOPED user functions) "+
+		Rule: fmt.Sprintf("objects whose sibling sections flatten to one name under mix=> (24 evaluations). a later query showing whole rows of the same document object; stars over a scope with read and unread CTEs. special items also: async columns of derived tables / CTEs used by value, aggregates over all-NULL columns, the same text under another option set in between (with enough filler statements to turn over a bounded cache). phase 'joinlimit': a LIMIT [OFFSET] window over every join flavour repeated 8..20 times (equal multisets); marker forms (FUSE, SETVAR, SPIN, SPINASYNC) in every matrix position. phase 'groups': grouping / DISTINCT / UNION over look-alike keys (\"0\", -0.0, 0, ...) repeated 12..30 times; every query with a synchronous fault position is also made to fail and executed again on the same Query object; special items: derived rows with async items read as objects, async items in join operands, CTE read by name, fused async slots, the bare marker. phase 'matrix' enumerates the full (expression form x clause position) matrix - %d forms (column, nested path, literals, arithmetic, unary, comparison-as-value, IN/BETWEEN/LIKE/IS-as-value, CASE returning column / literal / arithmetic / nested CASE, IF, ARRAY, CONCAT, FIRST/LAST/ELEMENTAT, UNWIND, CHANGETYPE, HASH, ENCODE/DECODE, DATERANGE, CONSTANT, GETVAR, row- and root-scoped subqueries, EXISTS, sync / ONCE / SCOPED user functions) "+
 			"x %d positions (aliased / bare / star select item, function argument, CASE branch, IF branch, inside a subquery's select, grouped, joined, union branch, CTE body, derived table, dual, ordered, DISTINCT, multi-dimensional) - over random documents, plus special select items (ASYNC call as a select item, FUSE with and without alias, SETVAR); phase 'rich' runs the shared rich query forms. "+
 			"Every successful result goes through the type walk (only nil, bool, string, Go numeric kinds, maps with string keys and slices of those; no engine-internal named type, pointer, func, `<-` key or reference cycle), an encoding/json round trip, and is evaluated again (2 quick / 5 thorough times) on a deep-copied input with a fresh Query: equal multiset, identical sequence when no grouping/join is involved. "+
 			"Non-trivial = a successful query with at least one non-NULL computed value; distinct = distinct (document, SQL).", len(c12Forms), len(c12Positions)),
